@@ -255,3 +255,8 @@ Definition env_doerner_Sign (grp : bytes) (v : doerner_view) (self other : bytes
        if ok then geval (alookup (env_doerner_session true (Some grp) self other)) go_doerner_sign_StartSignReceiver else None);
     ("sign.StartSignSender(config, selfID, otherID, hash, pl)",
        if ok then geval (alookup (env_doerner_session false (Some grp) self other)) go_doerner_sign_StartSignSender else None) ])%list.
+
+(* ---------------------------------------------------------------- example.StartXOR *)
+
+(* info = {SelfID: selfID, PartyIDs: partyIDs}: Threshold 0, Group nil *)
+Definition env_xor (ids : list bytes) (self : bytes) : aenv := [ ("err != nil", Some (negb (sess_ok None ids self 0))) ].
